@@ -357,6 +357,8 @@ class Daemon(object):
             serializer_id = msg.serializer_id
             serializer = serializers.serializers_by_id[serializer_id]
             data = serializer.loads(msg.data)
+            if not isinstance(data, dict):
+                raise errors.ProtocolError("malformed connect message")
             handshake_response = self.validateHandshake(conn, data["handshake"])
             handshake_response = {
                 "handshake": handshake_response,
@@ -435,6 +437,7 @@ class Daemon(object):
             else:
                 # normal deserialization of remote call arguments
                 objId, method, vargs, kwargs = serializer.loadsCall(msg.data)
+            _check_call_shape(method, vargs, kwargs)
             current_context.client = conn
             try:
                 # store, because on oneway calls, socket will be disconnected:
@@ -453,7 +456,11 @@ class Daemon(object):
                 if request_flags & protocol.FLAGS_BATCH:
                     # batched method calls, loop over them all and collect all results
                     data = []
-                    for method, vargs, kwargs in vargs:
+                    for call in vargs:
+                        if not isinstance(call, (list, tuple)) or len(call) != 3:
+                            raise errors.ProtocolError("malformed batch call")
+                        method, vargs, kwargs = call
+                        _check_call_shape(method, vargs, kwargs)
                         method = _get_exposed_method(obj, method)
                         try:
                             result = method(*vargs, **kwargs)  # this is the actual method call to the Pyro object
@@ -965,6 +972,16 @@ def _is_lazy_attribute(clazz: type, name: str) -> bool:
     kind = type(static)
     return hasattr(kind, "__get__") and not hasattr(kind, "__set__") and not hasattr(kind, "__delete__") and not callable(static) \
         and not isinstance(static, (classmethod, staticmethod, functools.partialmethod))
+
+
+def _check_call_shape(method, vargs, kwargs):
+    """
+    The member name, argument list and keyword arguments of a call must be text, a sequence and a dict (or nothing).
+    Anything else - a rebuilt Proxy in particular, which contacts its own daemon as soon as it is iterated - is refused
+    before it is used.
+    """
+    if not isinstance(method, str) or not isinstance(vargs, (list, tuple)) or not (kwargs is None or isinstance(kwargs, dict)):
+        raise errors.ProtocolError("malformed call: member name, arguments or keyword arguments of the wrong type")
 
 
 def _encodable(text):
